@@ -26,7 +26,7 @@ def f(x):
     return float("inf") if x == INF else float(fr(x))
 
 
-def observe(at, c0):
+def observe(at, c0, split=False):
     """Run one case through the optimisation API. Returns (outcome, z per year or None, error text)."""
     import sciris as sc
     from atomica.optimization import SpendingAdjustment, TotalSpendConstraint, Optimization, MaximizeMeasurable, UnresolvableConstraint, FailedConstraint
@@ -40,7 +40,10 @@ def observe(at, c0):
     adjs = [SpendingAdjustment(names[i], t=ts, limit_type="rel" if c["rel"] else "abs", lower=[f(c["bnd"][y][i][0]) for y in range(ny)],
                                upper=[f(c["bnd"][y][i][1]) for y in range(ny)], initial=[f(c["x0"][y][i]) for y in range(ny)]) for i in range(n)]
     totals = [None if c["tot"][y] == NOTOTAL else f(c["tot"][y]) for y in range(ny)]
-    con = TotalSpendConstraint(total_spend=totals if any(t is not None for t in totals) else None, t=ts, budget_factor=f(c["factor"]))
+    if ny == 2 and split:  # the two constrained years given as two constraint objects instead of one
+        con = [TotalSpendConstraint(total_spend=None if totals[y] is None else [totals[y]], t=[ts[y]], budget_factor=f(c["factor"])) for y in range(ny)]
+    else:
+        con = TotalSpendConstraint(total_spend=totals if any(t is not None for t in totals) else None, t=ts, budget_factor=f(c["factor"]))
     opt = Optimization(adjustments=adjs, measurables=MaximizeMeasurable("x", ts), constraints=con)
     ins0 = at.ProgramInstructions(start_year=2019.0, alloc={names[i]: TimeSeries(ts, [f(c["x0"][y][i]) for y in range(ny)]) for i in range(n)})
     x0 = [f(c["x0"][y][i]) for i in range(n) for y in range(ny)]
@@ -66,8 +69,8 @@ def observe(at, c0):
     return "ok", z, ""
 
 
-def cfg_pkg(n):
-    s = "SPECIFICATION Spec\nCONSTANTS\n  NMem = %d\n  Inits <- MCInits%d\n  PropPairs <- MCPropPairs\n  FracGrid <- MCFracGrid\n  TotalRanges <- MCTotalRanges\n  Plains <- MCPlains\n  ConFactors <- MCCons\n  WGrid <- MCWGrid\n" % (n, n)
+def cfg_pkg(n, sample=0):
+    s = "SPECIFICATION Spec\nCONSTANTS\n  PkgSample = %d\n  NMem = %d\n  Inits <- MCInits%d\n  PropPairs <- MCPropPairs\n  FracGrid <- MCFracGrid\n  TotalRanges <- MCTotalRanges\n  Plains <- MCPlains\n  ConFactors <- MCCons\n  WGrid <- MCWGrid\n" % (sample, n, n)
     return s + "INVARIANT ShareFeasible\nINVARIANT UnresSound\nINVARIANT LevelFeasible\nCHECK_DEADLOCK FALSE\n"
 
 
@@ -131,11 +134,11 @@ def packages(at, V, cov, thorough):
     records, index = [], {}
     rid = 0
     outcomes = {}
-    for n in ([2, 3] if thorough else [2]):
-        r, cases = C.enumerate_cases(["Rat", "Package", "MCPackage"], "MCPackage", cfg_pkg(n), timeout=3000)
+    for n, sample in ([(2, 0), (3, 12)] if thorough else [(2, 0), (3, 4)]):  # three members: proportion bounds and proposals sampled by TLC
+        r, cases = C.enumerate_cases(["Rat", "Package", "MCPackage"], "MCPackage", cfg_pkg(n, sample), timeout=3000)
         cov["states"] += r.distinct
         cov["transitions"] += r.generated
-        cov["plan"].append(dict(packages=True, members=n, cases=len(cases)))
+        cov["plan"].append(dict(packages=True, members=n, sampled_per_choice=sample, cases=len(cases)))
         for c0 in cases:
             o = observe_pkg(at, c0)
             outcomes[o["outcome"]] = outcomes.get(o["outcome"], 0) + 1
@@ -163,7 +166,7 @@ def run(prop, tier):
     V = C.Verdict(prop)
     thorough = tier == "thorough"
     # (programs, small bound set, sample): 1-3 programs exhaustively over the grids, 6 and 10 programs on random cases drawn by TLC
-    plan = [(1, False, 0), (2, not thorough, 0)] + ([(3, True, 0)] if thorough else []) + [(6, False, 6 if thorough else 4), (10, False, 5 if thorough else 3)]
+    plan = [(1, False, 0), (2, not thorough, 0)] + ([(3, True, 24)] if thorough else []) + [(6, False, 6 if thorough else 4), (10, False, 5 if thorough else 3)]
     cov = dict(states=0, transitions=0, traces_validated_against_impl=0, samples=[], exhaustive=True, plan=[])
     records, index = [], {}
     rid = 0
@@ -177,7 +180,7 @@ def run(prop, tier):
             cov["exhaustive"] = False
             cov["exhaustive_note"] = "1-3 programs and the spending packages exhaustive over the grids; 6 and 10 programs sampled by TLC (RandomSubset)"
         for c0 in cases:
-            outcome, z, err = observe(at, c0)
+            outcome, z, err = observe(at, c0, split=(len(records) % 2 == 1))
             outcomes[outcome] = outcomes.get(outcome, 0) + 1
             yrs = []
             for y, yr in enumerate(c0["year"]):
